@@ -46,6 +46,10 @@ def cases_(draw):
     for s in steps:
         if s['k'] == 'rows_fn' and draw(st.booleans()):
             s['fn'] = 'swallow'
+        elif s['k'] == 'rows_fn' and draw(st.booleans()):
+            # a rows function that stops reading each resource after its first n rows (it simply returns)
+            s['fn'] = 'head'
+            s['n'] = draw(st.sampled_from([0, 1, 2]))
     return {'pkg': prog['pkg'], 'steps': steps, 'observer': draw(st.sampled_from(OBSERVERS)),
             'at': draw(st.integers(0, len(steps))), 'seq': draw(st.booleans()),
             # observer parameters: the file name given to stream(), the printer's block size
@@ -136,11 +140,15 @@ def check(case, ctx):
                  dataflows.dump_to_path(os.path.join(ctx.tmpdir(), 'primer'), use_titles=True)).process()
     tables0 = gen.tables_of(pkg)
     prog = [s['k'] for s in specs]
+    # a step that stops reading a resource early is only meaningful over sources that can be read independently of each
+    # other (the harness' one-stream emulation has no notion of skipping; unstream, the real one, skips)
+    early = any(s_['k'] == 'rows_fn' and s_.get('fn') == 'head' for s_ in specs)
+    seq_ = bool(case['seq']) and not early
     obs = observer_spec(case['observer'], case)
     classes = ['observer:' + case['observer'], 'at-end' if p == len(specs) else 'not-last'] + sorted({'k:' + k for k in prog[p:]})
     try:
-        base_rows, base_desc, _, _ = run(desc0, tables0, specs, ctx, 'b', case['seq'])
-        pos_rows, pos_desc, pos_stats, _ = run(desc0, tables0, specs[:p], ctx, 'p', case['seq'])
+        base_rows, base_desc, _, _ = run(desc0, tables0, specs, ctx, 'b', seq_)
+        pos_rows, pos_desc, pos_stats, _ = run(desc0, tables0, specs[:p], ctx, 'p', seq_)
     except Exception as e:
         return Info(rejected=True, classes=['rejected:baseline-fails:' + type(root_cause(e)).__name__])
     # a tap right before a finalizer records how many rows had passed when the callback fired
@@ -172,7 +180,7 @@ def check(case, ctx):
         # reverse order); what it persists now is the stream of THIS run
         env_o = gp.Env(ctx, 'o')
         try:
-            run(desc0, [list(reversed(t)) for t in tables0], with_obs, ctx, 'o', case['seq'], env=env_o)
+            run(desc0, [list(reversed(t)) for t in tables0], with_obs, ctx, 'o', seq_, env=env_o)
         except Exception:
             env_o = None
         else:
@@ -180,7 +188,7 @@ def check(case, ctx):
             env_o.captures = {}
             classes.append('over-an-older-dump')
     try:
-        rows, desc, stats, env = run(desc0, tables0, with_obs, ctx, 'o', case['seq'], extra_before=extra, replace=replace,
+        rows, desc, stats, env = run(desc0, tables0, with_obs, ctx, 'o', seq_, extra_before=extra, replace=replace,
                                      env=env_o)
     except Exception as e:
         why = gp.data_dependent_rejection(e)
@@ -211,6 +219,10 @@ def check(case, ctx):
                  'with': rows[i][j] if j is not None else None, 'without': base_rows[i][j] if j is not None else None}
         raise Violation('transparency:rows:%s' % obs['k'], {'diff': d, 'program': prog, 'at': p})
     # ---- completeness at the observer's position
+    if obs['k'] in ('printer', 'finalizer') and any(s_['k'] == 'rows_fn' and s_.get('fn') == 'head' for s_ in specs[p:]):
+        # observers that only REPORT what passes them report what the steps behind them asked for; the ones that PERSIST
+        # the stream (dumps, stream files, checkpoints) hold all of it even then
+        return Info(nontrivial=True, classes=classes + ['early-stop-behind-a-reporting-observer'])
     exp_names = [r['name'] for r in pos_desc['resources']]
     exp_counts = [len(t) for t in pos_rows]
     k = obs['k']
